@@ -129,7 +129,7 @@ def prove(res, qualnames, second_backend=False, crosscheck_limit=1500):
         if status in ('out-of-subset', 'proof-lost'):
             res.notes.append('%s: %s (%s) -- downgraded to the bounded stand-in for this run' % (q, status, info.get('reason')))
             # its contract is only ASSUMED by its callers in this run: exercise the run-time form on the real function
-            if status == 'out-of-subset' and q not in reg.lemmas:
+            if q not in reg.lemmas:
                 try:
                     rt = runtime.exercise(reg.contracts[q], reg, limit=crosscheck_limit)
                 except Exception as exc:
